@@ -191,8 +191,8 @@ _RR_FUNCS = ["<ResourceRecord as WireFormat>::{write_to,parse,len}", "ResourceRe
              "parse_rdata", "<T as WireFormat>::{write_to,parse,len} for each of the 41 typed variants + NULL",
              "<Name as WireFormat>::{parse,write_to,len}", "<CharacterString as WireFormat>::{parse,write_to,len}"]
 _RR_BOUNDS = ("per record type: all integer/byte field values symbolic (full width), 5 classes x cache-flush bit x TTL symbolic; "
-              "shapes: names {root,[1],[2,1]} (+[3,2,1],[63] thorough), strings {0,2} (+5,255), opaque tails {0,3} (+1,9), "
-              "0-2 (3) list entries for TXT/OPT/NSEC/SVCB, all 4 IPSECKEY gateway kinds")
+              "shapes: names {root,[1],[2,1],[3,2,1],[63]}, strings {0,2,5,255}, opaque tails {0,3,1,9}, "
+              "0-3 list entries for TXT/OPT/NSEC/SVCB, all 4 IPSECKEY gateway kinds (same in both tiers)")
 _RR_ASSUME = [
     "validity predicates assumed (and nothing else): LOC version = 0 (write_to refuses others); NSAP aa < 2^24 and id < 2^48 "
     "(the wire format carries 24/48 bits); NSEC windows and SVCB keys strictly increasing (RFC order); TXT has >= 1 "
@@ -210,8 +210,8 @@ _PKT_FUNCS = ["Packet::{build_bytes_vec,build_bytes_vec_compressed,write_to,writ
               "Header::{write_to,get_flags,opt_rr,parse,extract_info_from_opt_rr}", "OPT::{encode_ttl,extract_rcode_from_ttl,parse,write_to}",
               "<Question|ResourceRecord|RData|typed RDATA as WireFormat>::{write_to,write_compressed_to,parse,len}",
               "Name::{plain_append,compress_append,parse}", "HashMap entry API (model)", "io::Cursor<Vec<u8>> Write+Seek (model)"]
-_PKT_BOUNDS = ("packet scenarios (9 quick / 13 thorough): 0-2 questions, 0-3 records per section over NS/PTR/CNAME/MX/SRV/SOA/MINFO/A/TXT "
-               "(+RP/AFSDB/RT/KX/NAPTR/RRSIG/NSEC/SVCB/IPSECKEY/HINFO/CAA/NULL/AAAA thorough), names built from 4 shared symbolic labels "
+_PKT_BOUNDS = ("15 packet scenarios (both tiers): 0-2 questions, 0-3 records per section over NS/PTR/CNAME/MX/SRV/SOA/MINFO/A/TXT/"
+               "RP/AFSDB/RT/KX/NAPTR/RRSIG/NSEC/SVCB/IPSECKEY/HINFO/CAA/NULL/AAAA, a 16400-byte record (names beyond offset 16383), 255-octet names, names built from shared symbolic labels "
                "(equal names, subdomains, unrelated), OPT absent/empty/with options; id, flag bits, TTLs, cache-flush/unicast bits, "
                "all integer fields and label bytes symbolic; header scenario: 5 named opcodes x 12 named rcodes x symbolic flags")
 _PKT_ASSUME = [
